@@ -1,6 +1,12 @@
-"""C09 — see DESIGN.md sections 5 "C09" and 11, and checks/svcommon.py."""
+"""C09 — see DESIGN.md sections 5 "C09" and 11, checks/svcommon.py (theorems over Msv + T2 layer 2 with crash images after
+every step + T1) and lib/killtie.py (T4-kill: the real binary under SIGKILL at seeded instants, restart on the file it left)."""
 from checks import svcommon
+from lib import killtie
 
 
 def run(ctx):
+    if ctx.replay and killtie.is_kill_replay(ctx.replay):
+        return killtie.replay(ctx, ctx.replay)
     svcommon.run(ctx, "C09")
+    if not ctx.replay:
+        killtie.run_property(ctx)
